@@ -84,7 +84,7 @@ func (t *Tools) Generate(v *Variant, dir string) error {
 	}
 	if !v.Layout.SharedStruct {
 		fd := desc.BuildFile(v.File)
-		pb, err := t.RunGogo(desc.MarshalRequest(desc.Request(fd, "", nil, nil)))
+		pb, err := t.RunGogo(desc.MarshalRequest(desc.RequestAll(fd, "")))
 		if err != nil {
 			return err
 		}
